@@ -14,7 +14,7 @@ def sh(cmd, **kw):
 
 
 def passing(wt, out):
-    sh(f'/tmp/wt/tools/passing.py {wt} {out}')
+    sh(f'/verif/dev/passing.py {wt} {out}')
     return set(open(out).read().split('\n')) - {''}
 
 
@@ -67,7 +67,7 @@ def main():
             meta.update({'breaks_property': prop, 'confirmed_at_repo_head': head,
                          'what_i_ran': [f'git worktree add --detach {wt} HEAD', f'PYTHONPATH=<wt> python demo.py  (clean: rc {res["demo_clean_rc"]})',
                                         'git apply patch.diff', f'PYTHONPATH=<wt> python demo.py  (changed: rc {res["demo_mutant_rc"]})',
-                                        f'/tmp/wt/tools/passing.py <wt>  (tests passing at HEAD that no longer pass: {len(res["lost_tests"])}; pinned baseline lost: 0)'],
+                                        f'/verif/dev/passing.py <wt>  (tests passing at HEAD that no longer pass: {len(res["lost_tests"])}; pinned baseline lost: 0)'],
                          'lost_nonpinned_tests': res['lost_tests'], 'demo_output_on_changed_tree': res['demo_mutant_tail']})
             json.dump(meta, open(f'{dst}/meta.json', 'w'), indent=1)
 
